@@ -184,7 +184,7 @@ class Ctx:
         return list(bad.items())
 
     # ------------------------------------------------------------------ reference outcomes
-    def sc_check(self, programs, impl, max_states, soundness=True, completeness=True):
+    def sc_check(self, programs, impl, max_states, soundness=True, completeness=True, exact=False):
         """Compare the implementation's explored outcomes with the outcomes of the reference
         interleaving semantics (Spec/SC.lean).  Returns a list of failures
         (program, kind, outcome) with kind in forbidden / missing / missed_failure."""
@@ -196,6 +196,16 @@ class Ctx:
             its, done = lvlib.iterations(impl.get(p, []))
             outs, capped, states = sc.get(p, (set(), True, 0))
             stats["reference_states"] += states
+            if exact and not capped and done and done[0] != "?":
+                # every explored iteration (also of a capped or bounded exploration, also the failing one) must
+                # show exactly an outcome of the reference: valid for programs whose visible results cannot be
+                # stale (RMW results, lock-protected values)
+                stats["compared"] += 1
+                stats["sound_checked"] += 1
+                bad = [o for o in (lvlib.outcome_str(it) for it in its) if o not in outs]
+                if bad:
+                    failures.append((p, "forbidden", bad[-1] if not bad[-1].startswith("ok") else bad[0]))
+                continue
             if capped or not done or done[1] == "capped":
                 stats["skipped_for_size"] += 1
                 continue
